@@ -18,6 +18,7 @@ import (
 )
 
 type tracer struct {
+	rangeOf map[string][]string // loop variable -> the string literals it ranges over
 	ev    []string
 	stack map[string]bool
 	depth int
@@ -64,6 +65,49 @@ func literalText(e ast.Expr) (string, bool) {
 		return true
 	})
 	return strings.Join(parts, " "), found
+}
+
+// stringList: the elements of a []string composite literal, or of the local variable initialised with one
+func (t *tracer) stringList(e ast.Expr) ([]string, bool) {
+	lits := func(cl *ast.CompositeLit) ([]string, bool) {
+		var out []string
+		for _, el := range cl.Elts {
+			bl, ok := el.(*ast.BasicLit)
+			if !ok || bl.Kind != token.STRING {
+				return nil, false
+			}
+			v, err := strconv.Unquote(bl.Value)
+			if err != nil {
+				return nil, false
+			}
+			out = append(out, v)
+		}
+		return out, len(out) > 0
+	}
+	switch v := e.(type) {
+	case *ast.CompositeLit:
+		return lits(v)
+	case *ast.Ident:
+		if len(t.cur) == 0 {
+			return nil, false
+		}
+		var out []string
+		found := false
+		ast.Inspect(t.cur[len(t.cur)-1].Body, func(n ast.Node) bool {
+			if as, ok := n.(*ast.AssignStmt); ok && !found {
+				for i, l := range as.Lhs {
+					if id, ok := l.(*ast.Ident); ok && id.Name == v.Name && i < len(as.Rhs) {
+						if cl, ok := as.Rhs[i].(*ast.CompositeLit); ok {
+							out, found = lits(cl)
+						}
+					}
+				}
+			}
+			return !found
+		})
+		return out, found
+	}
+	return nil, false
 }
 
 // sqlSummary: "VERB table [RETURNING] [LIKE(col)]" – robust against re-formatting of the statement text
@@ -195,6 +239,14 @@ func (t *tracer) node(pkg string, n ast.Node, pre string) {
 			return false
 		case *ast.RangeStmt:
 			t.node(pkg, e.X, pre)
+			if id, ok := e.Value.(*ast.Ident); ok {
+				if list, ok := t.stringList(e.X); ok {
+					if t.rangeOf == nil {
+						t.rangeOf = map[string][]string{}
+					}
+					t.rangeOf[id.Name] = list
+				}
+			}
 			t.emit(pre + "loop {")
 			t.node(pkg, e.Body, pre)
 			t.emit(pre + "}")
@@ -258,6 +310,13 @@ func (t *tracer) call(pkg string, e *ast.CallExpr, pre string) {
 		if len(e.Args) > idx {
 			txt, found := literalText(e.Args[idx])
 			if id, ok := e.Args[idx].(*ast.Ident); ok && !found {
+				if list, ok := t.rangeOf[id.Name]; ok {
+					// the statement text is the loop variable of `for _, x := range []string{…}`: one event per element
+					for _, q := range list {
+						t.emit(pre + "sql " + sqlSummary(q))
+					}
+					return
+				}
 				txt, found = t.localString(id.Name)
 			}
 			if found {
